@@ -48,6 +48,9 @@ type c17Case struct {
 	CloseWhileDown bool `json:"close_while_down,omitempty"`
 	// SrcAddr: the session is configured with a source address (127.0.0.1, as net.ParseIP returns it)
 	SrcAddr bool `json:"src_addr,omitempty"`
+	// FBASNFlip: every second connection the peer advertises the opposite 4-byte-ASN capability (a different router
+	// behind the same address, a peer restarted with another configuration)
+	FBASNFlip bool `json:"fbasn_flip,omitempty"`
 }
 
 var c17Prefixes = []string{"10.9.0.1/32", "10.9.0.2/32", "10.9.1.0/24", "10.9.2.128/25", "10.9.0.0/16"}
@@ -93,6 +96,7 @@ func genC17(rt *rapid.T) c17Case {
 	}
 	c.CloseWhileDown = rapid.IntRange(0, 11).Draw(rt, "closeWhileDown") == 0
 	c.SrcAddr = rapid.IntRange(0, 2).Draw(rt, "srcAddr") == 0
+	c.FBASNFlip = rapid.IntRange(0, 2).Draw(rt, "fbasnFlip") == 0
 	return c
 }
 
@@ -106,6 +110,7 @@ type c17Route struct {
 }
 
 type c17Conn struct {
+	fbasn        bool // the capability this connection's OPEN advertises
 	id           int
 	conn         net.Conn
 	table        map[string]c17Route
@@ -125,6 +130,7 @@ type c17Peer struct {
 	myASN      uint32 // the ASN this peer presents
 	speakerASN uint32
 	fbasn      bool
+	flip       bool
 	bad        int
 	stopped    bool
 	refuse     bool // hang up on new connections before answering the OPEN
@@ -156,6 +162,7 @@ func (p *c17Peer) serve() {
 		}
 		c := &c17Conn{id: len(p.conns), conn: conn, table: map[string]c17Route{}, dropAt: -1}
 		c.bad = c.id < p.bad
+		c.fbasn = p.fbasn != (p.flip && c.id%2 == 1)
 		p.conns = append(p.conns, c)
 		p.mu.Unlock()
 		p.wg.Add(1)
@@ -163,9 +170,9 @@ func (p *c17Peer) serve() {
 	}
 }
 
-func (p *c17Peer) openBytes(asn uint32) []byte {
+func (p *c17Peer) openBytes(asn uint32, fbasn bool) []byte {
 	var opts []byte
-	if p.fbasn {
+	if fbasn {
 		opts = []byte{2, 6, 65, 4, byte(asn >> 24), byte(asn >> 16), byte(asn >> 8), byte(asn)}
 	} else {
 		opts = []byte{2, 6, 1, 4, 0, 1, 0, 1} // some capability so that also older speakers accept the OPEN length
@@ -214,7 +221,7 @@ func (p *c17Peer) handle(c *c17Conn) {
 			if c.bad {
 				asn = p.myASN + 7
 			}
-			if _, err := c.conn.Write(append(p.openBytes(asn), keepaliveBytes()...)); err != nil {
+			if _, err := c.conn.Write(append(p.openBytes(asn, c.fbasn), keepaliveBytes()...)); err != nil {
 				return
 			}
 			p.mu.Lock()
@@ -240,6 +247,18 @@ func (p *c17Peer) handle(c *c17Conn) {
 					switch a.Type {
 					case 2:
 						r.Path = fmt.Sprintf("% x", a.Val)
+						// AS_PATH as this connection's capability demands: empty for iBGP, else one AS_SEQUENCE with the
+						// speaker's ASN in 4 bytes if the peer advertised the capability on this connection, in 2 otherwise
+						want := ""
+						if p.myASN != p.speakerASN {
+							want = fmt.Sprintf("02 01 %02x %02x", byte(p.speakerASN>>8), byte(p.speakerASN))
+							if c.fbasn {
+								want = fmt.Sprintf("02 01 00 00 %02x %02x", byte(p.speakerASN>>8), byte(p.speakerASN))
+							}
+						}
+						if r.Path != want {
+							c.errs = append(c.errs, fmt.Sprintf("AS_PATH % x on connection %d (4-byte capability advertised: %v), expected %s", a.Val, c.id, c.fbasn, want))
+						}
 					case 3:
 						if len(a.Val) != 4 || !net.IP(a.Val).Equal(net.IPv4(127, 0, 0, 1)) {
 							c.errs = append(c.errs, fmt.Sprintf("NEXT_HOP % x is not the speaker's address on this connection (127.0.0.1)", a.Val))
@@ -330,7 +349,10 @@ func runC17(c c17Case, tr *vw.Trace) *vw.Violation {
 	if !c.IBGP {
 		peerASN = 64999
 	}
-	p := &c17Peer{ln: ln, myASN: peerASN, speakerASN: speakerASN, fbasn: c.FBASN, bad: c.BadFirst}
+	p := &c17Peer{ln: ln, myASN: peerASN, speakerASN: speakerASN, fbasn: c.FBASN, flip: c.FBASNFlip, bad: c.BadFirst}
+	if c.FBASNFlip {
+		tr.Class("peer-capability-differs-between-connections")
+	}
 	p.wg.Add(1)
 	go p.serve()
 	port := ln.Addr().(*net.TCPAddr).Port
